@@ -2,6 +2,8 @@
 // verdict (race / no race / deadlock / wrong value possible), run under the simulator.
 #include <atomic>
 #include <condition_variable>
+#include <latch>
+#include <memory>
 #include <mutex>
 #include <shared_mutex>
 #include <thread>
@@ -26,6 +28,8 @@ static int payload;
 static std::mutex ma, mb;
 static int table[8];
 static long observed[16];
+static std::atomic<int> aw_flag;
+static std::atomic<std::shared_ptr<const int>> asp;
 
 void reset() {
   plain_counter = 0;
@@ -34,6 +38,8 @@ void reset() {
   consumed = 0;
   once_value = 0;
   flag = 0;
+  aw_flag = 0;
+  asp.store(nullptr);
   payload = 0;
   for (auto& t : table) t = 0;
   for (auto& o : observed) o = -1;
@@ -178,6 +184,53 @@ void s_check_then_act(int) {
   }
 }
 
+// 16: std::atomic wait / notify (futex through the libc syscall wrapper) -> no race, waiter sees 9
+void s_atomic_wait(int t) {
+  if (t == 0) {
+    payload = 9;
+    aw_flag.store(1, std::memory_order_release);
+    aw_flag.notify_all();
+  } else {
+    aw_flag.wait(0, std::memory_order_acquire);
+    observed[t] = payload;
+  }
+}
+// 17: both mutexes through std::scoped_lock in opposite argument orders -> never deadlocks
+void s_scoped_lock(int t) {
+  for (int i = 0; i < 3; ++i) {
+    if (t % 2 == 0) {
+      std::scoped_lock l(ma, mb);
+      plain_counter++;
+    } else {
+      std::scoped_lock l(mb, ma);
+      plain_counter++;
+    }
+  }
+}
+// 18: atomic<shared_ptr> publication with concurrent first construction -> no race, everyone sees 5
+void s_atomic_shared_ptr(int t) {
+  auto p = asp.load(std::memory_order_acquire);
+  if (!p) {
+    auto mine = std::make_shared<const int>(5);
+    std::shared_ptr<const int> expected;
+    if (asp.compare_exchange_strong(expected, mine, std::memory_order_acq_rel)) p = mine;
+    else p = expected;
+  }
+  observed[t] = *p;
+}
+// 19: timed condition wait with a predicate that becomes true -> no race, no spurious failure
+void s_cond_wait_for(int t) {
+  if (t == 0) {
+    std::lock_guard<std::mutex> l(mtx);
+    queue_items = 3;
+    cv.notify_all();
+  } else {
+    std::unique_lock<std::mutex> l(mtx);
+    cv.wait_for(l, std::chrono::seconds(5), [] { return queue_items > 0; });
+    observed[t] = queue_items;
+  }
+}
+
 static const Scenario kScenarios[] = {
   {"plain_race", s_plain_race},       {"mutex", s_mutex},         {"atomic", s_atomic},
   {"publish_ok", s_publish_ok},       {"publish_relaxed", s_publish_relaxed},
@@ -185,6 +238,8 @@ static const Scenario kScenarios[] = {
   {"rwlock", s_rwlock},               {"rwlock_bad", s_rwlock_bad}, {"condvar", s_condvar},
   {"deadlock", s_deadlock},           {"heap_reuse", s_heap_reuse}, {"tls", s_tls},
   {"spin", s_spin},                   {"check_then_act", s_check_then_act},
+  {"atomic_wait", s_atomic_wait},     {"scoped_lock", s_scoped_lock},
+  {"atomic_shared_ptr", s_atomic_shared_ptr}, {"cond_wait_for", s_cond_wait_for},
 };
 const Scenario* scenarios() { return kScenarios; }
 int n_scenarios() { return (int)(sizeof kScenarios / sizeof kScenarios[0]); }
